@@ -342,6 +342,12 @@ func (e *vfClientEnv) do(op vfOp) (res *vfOpResult) {
 		res.Err = f.Chown(int(op.A), int(op.B))
 	case "sync":
 		res.Err = f.Sync()
+	case "hasext":
+		var ok bool
+		res.Str, ok = c.HasExtension(op.P)
+		if !ok {
+			res.Str = "<not advertised>"
+		}
 	case "readdirctx":
 		ctx, cancel := context.WithCancel(context.Background())
 		e.mu.Lock()
